@@ -483,6 +483,11 @@ prop("C20",
 PROPS["C03"]["quick"].append({"engine": "Z", "prop": "C03"})
 PROPS["C03"]["thorough"].append({"engine": "Z", "prop": "C03", "zoo_tier": "thorough"})
 META["C03"]["engine"] = "S+L+Z"
+for _p in ("C04", "C19"):
+    PROPS[_p]["quick"].append({"engine": "Z", "prop": _p})
+    PROPS[_p]["thorough"].append({"engine": "Z", "prop": _p, "zoo_tier": "thorough"})
+    META[_p]["engine"] = "S+L+Z"
+    PROPS[_p]["assumptions"].append("engine Z: the options and pairwise families of the zoo under the virtual clock (a call costs a fixed number of ticks, nothing else advances the clock, one thread): call counts, samples and iters must equal the documented sampling rule for time options given as attribute (Duration / float seconds, benchmark and group level), command-line flag, DIVAN_* variable and builder call; several threads with a time limit or an automatic size are excluded (clock readings depend on the schedule)")
 PROPS["C15"]["quick"].append({"engine": "Z", "prop": "C15"})
 PROPS["C15"]["thorough"].append({"engine": "Z", "prop": "C15", "zoo_tier": "thorough"})
 META["C15"]["engine"] = "S+Z"
